@@ -58,7 +58,9 @@ def _mk(name, bases, extra):
         return ProblemKind(set(holder["cls"].FEATURES), version=LATEST_PROBLEM_KIND_VERSION)
 
     def supports(problem_kind):
-        return set(problem_kind.features) <= holder["cls"].FEATURES
+        # the ordering of kinds, as Engine subclasses in the library do it: a kind declared at an older
+        # version is upgraded first (its features imply others), so this is not plain set inclusion
+        return problem_kind <= supported_kind()
 
     def satisfies(optimality_guarantee):
         return optimality_guarantee.name in holder["cls"].OPT
